@@ -251,6 +251,25 @@ def run(facts, R):
                 R.check(ok and on_notify, "notify-before-pending", lb.path, "notify goes to the subscriber slot",
                         "Notify row is %s under %s" % (render(v)[:200], texts(fs2)), s.get("span"), "sender = notify_tx clone, on the notify != 0 edge")
 
+    # ---------------- own-entry-only: besides the reader (deliver-by-key) the only thing that removes a pending entry is the
+    # call that registered it, and only while the entry can still be its own - the guard's Drop removes the key unless the call
+    # was already served (after delivery the key is free again: a forwarded request may reuse it, and a late unconditional
+    # remove would delete that other call's entry).  C06's abandon rules decide the guard protocol (shared)
+    from analysis import report as _report6
+    from rules import C06 as _c06
+    sub6 = _report6.Report(R.prop, R.tier, R.config)
+    try:
+        _c06.run(facts, sub6)
+    except Exception as e:
+        sub6.bad("anchor-resolution", "<crate>", "shared-C06-rules", "the shared pending-guard rules could not run: %s" % e)
+    keep6 = ("remove(self.request_id) unless disarmed", "one disarm", "disarm only after a response arrived")
+    for inst in sub6.instances:
+        if inst["rule"] == "pending-removed-on-abandon" and inst.get("what") in keep6 and inst["verdict"] == "holds":
+            R.instances.append(inst)
+    for v in sub6.violations:
+        if (v["rule"] == "pending-removed-on-abandon" and v.get("what") in keep6) or v["rule"] == "anchor-resolution":
+            R.bad("own-entry-only", v["fn"], v["what"], v["msg"] + " (a served call's late Drop would remove whatever entry now sits under its id)", v.get("site"), v.get("path"))
+
     # ---------------- index-travels (batch) ---------------------------------------------------------------
     batch_blocking(facts, R)
     for path in ("async_client::AsyncClient::batch_json_inner::{closure#0}",) + (("websocket_client::WebSocketClient::batch_json_inner::{closure#0}",) if has_ws else ()):
